@@ -179,6 +179,19 @@ Theorem C03_decomposition_has_at_least_antichain_many_paths :
 Proof. exact decomposition_needs_antichain_many_paths. Qed.
 Print Assumptions C03_decomposition_has_at_least_antichain_many_paths.
 
+(* (10') the same with the graph-relative notion the code's width is about (Dilworth.incompatible_in: no path OF THE GRAPH contains
+   two of the edges) -- (10) assumes the stronger `incompatible_edges` (no duplicate-free node list whatsoever contains both), which few
+   edge sets satisfy (noticed by agent-walk while proving Dilworth's theorem for C09); with C09_min_path_cover_equals_width the bound is
+   attained by the covers, so it is the best bound of this kind *)
+From FP Require Import Dilworth WidthBound.
+Theorem C03_decomposition_has_at_least_width_many_paths :
+  forall (I : kfd_inst) (A' : list PathEnc.edge) (P : N -> list node) (w : N -> Q),
+  NoDup A' -> incompatible_in (g_edges (p_graph (f_base I))) A' ->
+  (forall e, In e A' -> In e (g_edges (p_graph (f_base I))) /\ mem_edge e (f_ignore I) = false /\ (0 < lookup_q e (f_flow I) 0)%Q) ->
+  decomposition I P w -> (length A' <= p_k (f_base I))%nat.
+Proof. exact decomposition_needs_width_many_paths. Qed.
+Print Assumptions C03_decomposition_has_at_least_width_many_paths.
+
 (* (11) the exhaustive oracle that decides the minimum of each sampled INTEGER instance is itself verified and extracted
    (FlowOracle.v): it returns the least number of weighted source-to-sink paths (non-negative integer weights) explaining the
    non-ignored flow and realising the subpath constraints *)
